@@ -882,6 +882,80 @@ def _newton_state(run, db):
                   'overshooting step) is declared converged at once and its tangent-plane point is returned as the intersection' % ast.unparse(c), fn.loc(c))
 
 
+def closure_gradient_rules(run, db):
+    """Every Surface factory hands the constructor a closure FFp(x, y) -> (z, dz/dx, dz/dy): the two slopes are the partial derivatives
+    of THAT sag.  The factory is interpreted with symbolic parameters, the closure it builds is called at a generic point x = r cos t,
+    y = r sin t (r != 0), and the slopes are compared with the symbolic derivative of the returned sag transformed to Cartesian
+    components.  cart_to_polar is summarised as (r, t); np.where on r == 0 takes the generic branch (the axis is C19.axis0's)."""
+    from ..core.norm import diff
+    from ..core.interp import ClassRef
+    from .common import norm_interp, bind_call
+    SFQ = 'prysm.x.raytracing.surfaces.'
+    ci = db.cls(SFQ + 'Surface')
+    init = db.method(ci, '__init__')
+    facts = [(nm, m) for nm, m in sorted(ci.methods.items()) if 'classmethod' in m.decorators and 'FFp' in {n.name for n in ast.walk(m.node) if isinstance(n, ast.FunctionDef)} or
+             ('classmethod' in m.decorators and any(isinstance(c, ast.Call) and isinstance(c.func, ast.Attribute) and isinstance(c.func.value, ast.Name) and c.func.value.id == 'cls' for c in ast.walk(m.node)))]
+    if len(facts) < 3:
+        raise AnalysisError('Surface: fewer than three factories that build a sag / slope closure (%s)' % [nm for nm, _ in facts])
+    n_ok = 0
+    skipped = []
+    for nm, m in facts:
+        it, dom = norm_interp(db)
+        R = dom.R
+        dom.nonzero = {'r'}
+        captured = {}
+        op, oe, oi = dom.call_prysm, dom.call_ext, dom.instantiate
+
+        def call_prysm(fi, args, kws, node, op=op, dom=dom):
+            if fi.name == 'cart_to_polar':
+                return Tup([dom.sym('r'), dom.sym('t')])
+            return op(fi, args, kws, node) if op else None
+
+        def call_ext(dotted, args, kws, node, oe=oe):
+            if dotted == 'numpy.where' and len(args) == 3 and isinstance(args[0], Const) and isinstance(args[0].v, bool):
+                return args[1] if args[0].v else args[2]
+            if dotted in ('numpy.zeros_like', 'numpy.ones_like') and args and dom.rat(args[0]) is not None:
+                return Const(0 if dotted.endswith('zeros_like') else 1)
+            return oe(dotted, args, kws, node)
+
+        def instantiate(c_, args, kws, node, oi=oi, captured=captured):
+            if c_ is ci:
+                captured['b'] = bind_call(init, args, kws)
+                return Unknown('Surface')
+            return oi(c_, args, kws, node) if oi else None
+        dom.call_prysm, dom.call_ext, dom.instantiate = call_prysm, call_ext, instantiate
+        kw = {}
+        for p_ in m.params[1:]:
+            kw[p_] = Const('refl') if p_ == 'typ' else (Const(None) if p_ in ('n', 'R', 'bounding') else (Unknown('P') if p_ == 'P' else dom.sym('par_' + p_)))
+        res = [q for q in it.run(m, kwargs=lambda: dict(kw), args=lambda: [ClassRef(ci)]) if q.outcome == 'return']
+        ffp = captured.get('b', {}).get('FFp')
+        if not res or ffp is None:
+            continue          # not a closure-building factory (or its parameters are not scalars)
+        rr, tt = Rat(R.atom('r')), Rat(R.atom('t'))
+        ct, st = Rat(R.trig('cos', tt)), Rat(R.trig('sin', tt))
+        it._reset_run([])
+        try:
+            v = it.call_value(ffp, [dom.lift(rr * ct), dom.lift(rr * st)], {}, None, None)
+        except Exception as e:
+            skipped.append('%s (%s)' % (nm, str(e)[:60]))
+            continue
+        items = v.items if isinstance(v, Tup) else None
+        if items is None or len(items) != 3 or any(dom.rat(q) is None for q in items):
+            skipped.append('%s (result outside NORM)' % nm)
+            continue
+        z, dx, dy = [dom.rat(q) for q in items]
+        zr, zt = diff(z, 'r', R), diff(z, 't', R)
+        wx, wy = ct * zr - st * zt / rr, st * zr + ct * zt / rr
+        n_ok += 1
+        run.check(dx == wx and dy == wy, 'C19.normal', m.qual, 'slopes of the closure', 'the slopes Surface.%s returns with the sag are the partial derivatives of that sag' % nm,
+                  'Surface.%s: at x = r cos t, y = r sin t the closure returns the sag %s with slopes (%s, %s), but the derivatives of that sag are (%s, %s): the surface normal is not normal to the surface'
+                  % (nm, z.key()[:80], dx.key()[:90], dy.key()[:90], wx.key()[:90], wy.key()[:90]), m.loc())
+    if skipped and hasattr(run, 'info'):
+        run.info('C19.normal: closures not decided at a generic point: %s' % '; '.join(skipped))
+    if n_ok < 2:
+        raise AnalysisError('Surface: fewer than two factory closures could be followed (%s)' % '; '.join(skipped))
+
+
 def check(run, db, tier):
     run.trust('vector algebra in NORM: vectors as linear combinations of {S, r} with Gram atoms S.S = 1, S.r = c, r.r = rho^2',
               "Snell's law in vector form: the tangential component scales by n/n'; mirror law S' = S - 2 (S.n) n")
@@ -890,7 +964,7 @@ def check(run, db, tier):
     run.rule('C19.rigid', 'local/global frame transforms are R(X-P) and R X + P with directions rotated only; raytrace uses (P, R) in and (P, R^T) out')
     run.rule('C19.normal', 'the normal handed to the interaction is the gradient of z - sag; Newton step and first guess; polar-to-Cartesian slope formula')
     run.rule('C19.axis0', 'no unguarded division by the radial coordinate on the normal path')
-    for fn in (vector_rules, frame_rules, normal_rules, rotation_rules, state_rules, indexspace_rules):
+    for fn in (vector_rules, frame_rules, normal_rules, rotation_rules, state_rules, indexspace_rules, closure_gradient_rules):
         run.group(fn, run, db)
     # the slopes handed to the normal are the derivatives of the sag (shared with C09.rule)
     from .c02 import Proxy
